@@ -18,7 +18,7 @@ SPACES = {
                                                    # runs that cross the version-1 capacity at level H in each mode (17 digits / 10 alphanumeric / 7 bytes) and at level L (41 / 25 / 17)
                                                    ((49,) * 15, 2, 3, None), ((65,) * 8, 2, 3, None), ((97,) * 5, 2, 3, None),
                                                    ((49,) * 39, 2, 3, None), ((65,) * 23, 2, 3, None), ((97,) * 15, 2, 3, None)]),   # each string x 4 levels x 4 API modes
-    "c128": ([49, 55, 241, 242, 65, 97, 1, 200], [((), 5, 7, None)]),
+    "c128": ([49, 55, 241, 242, 65, 97, 1, 200], [((), 5, 6, None)]),
 }
 
 
